@@ -3,25 +3,30 @@ import Nv.Model.C16
 import Nv.Gen.C16
 /-!
 oracle_c16 — line protocol (one world per script; the first line (re)initialises it):
-  `init <max> <pipe|rt|wt|tcp>`      → `ok`
-  `conn`                              → `r=acc<k>` | `r=rej`, then the world
-  `burst <n>` (1..8 attempts back to back) → `r=acc<a>,rej<r>`, then the world
+  `init <max> <mode>`                 → `ok`      modes: pipe | rt | wt | tcp | pub | publ | pubx | echo
+  `conn`                              → `r=acc<k>` | `r=rej` | `r=lost` (accept loop has stopped), then the world
+  `burst <n>` (1..8 attempts back to back) → `r=acc<a>,rej<r>[,lost<l>]`, then the world
   `send <k> <hex|->`                  → `r=ok` | `r=closed`, then the world
-  `close|pclose|drain|hold|pdata|rerr|rto|herr|rdl|hpanic|hpanicnil|werr|wto|wdl|start|cerr <k>` → `r=ok`, then the world
+  `close|pclose|drain|hold|pdata|rerr|rto|herr|rdl|hpanic|hpanicnil|werr|wto|wdl|start|cerr|uh|xpanic|xblock <k>` → `r=ok`, then the world
+  `aerr` (temporary Accept error) | `afail` (permanent Accept error) → `r=run` | `r=stop`, then the world
+  `stress <kind> <seed>`              → `r=done`, then the world (the scenario is judged by the monitors only)
 World: ` n=<ConnCount> rej=<closed on accept> / <k>:x<OnExit calls>,c<conn.Close calls>,l<live loops>,d=<hex read by peer>,rd=<handler reads>`
-After every line all sessions run to quiescence. Mode `rt`: every read deadline expires before the next
-observation; mode `wt`: every blocked write times out before the next observation.
-The configuration is the one regenerated from the source (`Nv.Gen.C16.cfg`).
+After every line all sessions run to quiescence. Mode `rt`/`pubx`: every read deadline expires before the next
+observation; mode `wt`: every blocked write times out before the next observation; `pubx` prints `n=?` (the manager is
+created inside NewTCPSrvX); `echo`: Echo sessions (one goroutine; `l` counts it; `pdata` is echoed back).
+The accept loop runs with acceptMaxRetry = 3. The configuration is the one regenerated from the source (`Nv.Gen.C16.cfg`).
 -/
 open Nv Nv.C16
 
-inductive Mode | pipe | rt | wt | tcp
+inductive Mode | pipe | rt | wt | tcp | pub | publ | pubx | echo
 deriving DecidableEq
 
 structure OState where
   live : Bool := false
   mode : Mode := .pipe
   w : World := { max := 0 }
+  accepting : Bool := true   -- the accept loop is running
+  aerrs : Nat := 0           -- consecutive temporary Accept errors
 
 def cfg : Cfg := Nv.Gen.C16.cfg
 
@@ -48,20 +53,22 @@ def showHex (l : List Nat) : String :=
 
 def loops (s : Sess) : Nat := (if s.sendPc = .done then 0 else 1) + (if s.recvPc = .done then 0 else 1)
 
-def showSess (k : Nat) (s : Sess) : String :=
-  s!"{k}:x{s.exits},c{s.closes},l{loops s},d={showHex s.delivered},rd={s.reads}" ++ (if s.crashed then ",crash" else "")
+def showSess (m : Mode) (k : Nat) (s : Sess) : String :=
+  let l := if m = .echo then (if s.recvPc = .done then 0 else 1) else loops s
+  s!"{k}:x{s.exits},c{s.closes},l{l},d={showHex s.delivered},rd={s.reads}" ++ (if s.crashed then ",crash" else "")
 
-def showSessions : Nat → List Sess → List String
+def showSessions (m : Mode) : Nat → List Sess → List String
   | _, [] => []
-  | k, s :: rest => showSess k s :: showSessions (k + 1) rest
+  | k, s :: rest => showSess m k s :: showSessions m (k + 1) rest
 
-def showWorld (w : World) : String :=
-  s!" n={w.count} rej={w.rejected}" ++ String.join ((showSessions 0 w.sess).map (" / " ++ ·))
+def showWorld (m : Mode) (w : World) : String :=
+  (if m = .pubx then " n=?" else s!" n={w.count}") ++ s!" rej={w.rejected}" ++
+    String.join ((showSessions m 0 w.sess).map (" / " ++ ·))
 
 /-- what real time does between two observations in the timeout modes -/
 def timePasses (m : Mode) (s : Sess) : Sess :=
   match m with
-  | .rt => event cfg s .readFail
+  | .rt | .pubx => event cfg s .readFail
   | .wt => match s.sendPc with
     | .writing _ => event cfg s .writeFail
     | _ => s
@@ -71,8 +78,10 @@ def finishLine (st : OState) (w : World) (r : String) : OState × String :=
   let w' := { w with sess := w.sess.map (fun s => timePasses st.mode (settle cfg s)) }
   -- the other extreme schedule (receive loop first): if it ends elsewhere the line is a set of outcomes
   let w2 := { w with sess := w.sess.map (fun s => timePasses st.mode (settleR cfg s)) }
-  let a := s!"r={r}" ++ showWorld w'
-  let b := s!"r={r}" ++ showWorld w2
+  let a := s!"r={r}" ++ showWorld st.mode w'
+  let b := s!"r={r}" ++ showWorld st.mode w2
+  -- a panic that escapes a goroutine kills the process: nothing can be observed from then on
+  if w'.sess.any (·.crashed) then ({ st with w := w' }, "crash:process-died") else
   ({ st with w := w' }, if a == b then a else "{" ++ a ++ "|" ++ b ++ "}")
 
 def onSess (st : OState) (k : String) (f : Sess → Sess × String) : OState × String :=
@@ -91,17 +100,20 @@ def step (st : OState) (line : String) : OState × String :=
   match words line with
   | ["init", m, mode] =>
     match m.toInt?, (if mode == "pipe" then some Mode.pipe else if mode == "rt" then some Mode.rt
-        else if mode == "wt" then some Mode.wt else if mode == "tcp" then some Mode.tcp else none) with
+        else if mode == "wt" then some Mode.wt else if mode == "tcp" then some Mode.tcp
+        else if mode == "pub" then some Mode.pub else if mode == "publ" then some Mode.publ
+        else if mode == "pubx" then some Mode.pubx else if mode == "echo" then some Mode.echo else none) with
     | some m, some mode => ({ live := true, mode := mode, w := { max := m } }, "ok")
     | _, _ => (st, "bad-op")
   | op :: args =>
     if !st.live then (st, "bad-op") else
     match op, args with
     | "conn", [] =>
+      if !st.accepting then finishLine st st.w "lost" else
       match wstep cfg st.w .connect with
       | some w' =>
         let r := if w'.sess.length > st.w.sess.length then s!"acc{st.w.sess.length}" else "rej"
-        finishLine st w' r
+        finishLine { st with aerrs := 0 } w' r
       | none => (st, "bad-op")
     | "burst", [n] =>
       -- n connection attempts reach the accept loop back to back (it handles them one after the other)
@@ -109,8 +121,21 @@ def step (st : OState) (line : String) : OState × String :=
       | none => (st, "bad-op")
       | some n =>
         if n = 0 ∨ n > 8 then (st, "bad-op") else
+        if !st.accepting then finishLine st st.w s!"acc0,rej0,lost{n}" else
         let w' := (List.range n).foldl (fun w _ => (wstep cfg w .connect).getD w) st.w
-        finishLine st w' s!"acc{w'.sess.length - st.w.sess.length},rej{w'.rejected - st.w.rejected}"
+        finishLine { st with aerrs := 0 } w' s!"acc{w'.sess.length - st.w.sess.length},rej{w'.rejected - st.w.rejected}"
+    | "aerr", [] =>
+      if st.mode ≠ .pipe ∧ st.mode ≠ .echo then (st, "bad-op") else
+      if !st.accepting then finishLine st st.w "stop" else
+      if st.aerrs + 1 ≥ 3 then finishLine { st with accepting := false } st.w "stop"
+      else finishLine { st with aerrs := st.aerrs + 1 } st.w "run"
+    | "afail", [] =>
+      if st.mode ≠ .pipe ∧ st.mode ≠ .echo then (st, "bad-op") else
+      finishLine { st with accepting := false } st.w "stop"
+    | "stress", [_, seed] =>
+      match seed.toNat? with
+      | some _ => finishLine st st.w "done"
+      | none => (st, "bad-op")
     | "send", [k, h] =>
       match parseHex h with
       | none => (st, "bad-op")
@@ -119,7 +144,11 @@ def step (st : OState) (line : String) : OState × String :=
     | "pclose", [k] => onSess st k (envs [.peerClose])
     | "drain", [k] => onSess st k (envs [.peerDrain])
     | "hold", [k] => onSess st k (envs [.peerHold])
-    | "pdata", [k] => onSess st k (envs [.peerData])
+    | "pdata", [k] =>
+      if st.mode = .echo then
+        onSess st k fun s =>
+          if s.recvPc = .reading ∧ s.peerClosed = false ∧ s.closes = 0 then envs [.peerData, .send [0x64]] s else (s, "ok")
+      else onSess st k (envs [.peerData])
     | "rerr", [k] => onSess st k (envs [.readFail])
     | "rto", [k] => onSess st k (envs [.readFail])
     | "herr", [k] => onSess st k (envs [.readFail])
@@ -131,6 +160,9 @@ def step (st : OState) (line : String) : OState × String :=
     | "wdl", [k] => onSess st k (envs [.writeFail])
     | "start", [k] => onSess st k (envs [])
     | "cerr", [k] => onSess st k (envs [])   -- conn.Close() will report an error: logged only
+    | "uh", [k] => onSess st k (envs [])     -- UpdateHandler(another handler with the same behaviour)
+    | "xpanic", [k] => onSess st k fun s => ({ s with onExit := .panics }, "ok")   -- the handler's OnExit will panic
+    | "xblock", [k] => onSess st k fun s => ({ s with onExit := .blocks }, "ok")   -- … will never return
     | _, _ => (st, "bad-op")
   | _ => (st, "bad-op")
 
